@@ -31,7 +31,14 @@
      through operator char*()" ([OResize v n c] fills with c): the bytes resize() itself exposes are
      indeterminate in the code and are never observed.
    * printf / fromPrintf: the bytes vsnprintf produces are an argument of the operation.
-   * split into a HashSet is observed as the lexicographically sorted set of tokens. *)
+   * split into a HashSet is observed as the lexicographically sorted set of tokens.
+   * round 3: concatenation (operator+=, operator+ with a String, a char, a literal; d = v + u) is list append, total on
+     byte strings.  fromBool gives "true" / "false" (and, like a literal, a new foreign buffer holding the text).
+     fromCString(str) takes a C string, fromCString(str, n) the first n bytes of a buffer of at least n bytes.
+     toBool reads the C-string view (NUL-free values); [s_tobool] is false exactly for the empty text, "false" in any
+     case, "0", and zeros around one decimal point with at least one zero - "00", "0.0." and "0x" are true.  The static
+     char functions are ASCII ([lower], [upper], membership in explicit alphabets); the static find(in, str) /
+     findOneOf(in, chars) are the first-occurrence searches on two C strings.  scanf is not part of this reference. *)
 From Coq Require Import ZArith List Bool Arith Lia.
 From Common Require Import ListAux.
 Import ListNotations.
@@ -51,7 +58,12 @@ Inductive out :=
 (* queries through the static const char* helpers (on the C-string views of two values), and the
    member equalsIgnoreCase(other, len) *)
 Inductive squery := QCompare | QCompareN (n : nat) | QCompareIC | QCompareICN (n : nat) | QEqualsICN (n : nat)
-                  | QStartsWith | QLength | QFindC (c : Z) | QFindLastC (c : Z).
+                  | QStartsWith | QLength | QFindC (c : Z) | QFindLastC (c : Z)
+                  | QFindStr | QFindOneOfStr.        (* the static find(in, str) / findOneOf(in, chars) *)
+
+(* the static functions on one char: the case maps and the classifiers *)
+Inductive cquery := CLower | CUpper | CIsSpace | CIsAlnum | CIsAlpha | CIsDigit | CIsLowerCase | CIsPrint | CIsPunct
+                  | CIsUpperCase | CIsHexDigit.
 
 (* ---- operations (variables are numbered in creation order) ---- *)
 Inductive op :=
@@ -85,7 +97,18 @@ Inductive op :=
 | OEqLit (v : nat) (l : list Z)                  (* v == "literal", v != "literal" (the array overloads) *)
 | OSplitSet (v : nat) (seps : list Z) (skipEmpty : bool)   (* split into a HashSet: the set of tokens *)
 | OFromPrintf (l : list Z)                       (* the static fromPrintf; l = the bytes vsnprintf produced; pushes *)
-| OStat (q : squery) (v u : nat).
+| OStat (q : squery) (v u : nat)
+(* round 3: concatenation operators, fromBool / fromCString / toBool, the static char functions *)
+| OPlusEqS (v u : nat)                           (* v += u            (operator+=(const String&)) *)
+| OPlusEqC (v : nat) (c : Z)                     (* v += c            (operator+=(char)) *)
+| OPlus (v u : nat)                              (* a new variable initialised with  v + u *)
+| OPlusLit (v : nat) (l : list Z)                (* a new variable initialised with  v + "literal" (the array overload) *)
+| OPlusAssign (d v u : nat)                      (* d = v + u         (d, v, u may all be the same variable) *)
+| OFromBool (b : bool)                           (* a new variable initialised with fromBool(b) *)
+| OFromCStr (l : list Z)                         (* ... with fromCString(str), str a C string *)
+| OFromCStrN (l : list Z) (n : nat)              (* ... with fromCString(str, n), str a buffer of at least n bytes *)
+| OToBool (v : nat)
+| OChar (q : cquery) (c : Z).                    (* toLowerCase(c), toUpperCase(c), isSpace(c), isAlpha(c), ... *)
 
 (* ---- pure reference functions ---- *)
 Definition is_byte (b : Z) : bool := (0 <=? b) && (b <? 256).
@@ -219,6 +242,50 @@ Definition s_stat (q : squery) (a b : list Z) : Z :=
   | QLength => Z.of_nat (length a)
   | QFindC c => oidx (find_first (P_chr c) a)
   | QFindLastC c => oidx (find_last (P_chr c) a)
+  | QFindStr => oidx (find_first (P_sub b) a)
+  | QFindOneOfStr => oidx (find_first (P_any b) a)
+  end.
+
+(* ---- fromBool / toBool ---- *)
+Definition true_text : list Z := [116; 114; 117; 101].
+Definition false_text : list Z := [102; 97; 108; 115; 101].
+Definition bool_text (b : bool) : list Z := if b then true_text else false_text.
+
+(* the texts toBool() takes for false: the empty text, "false" in any case, "0", and zeros around one
+   decimal point with at least one zero ("0.", ".0", "00.000"); everything else - also "00" - is true *)
+Definition is0 (c : Z) : bool := c =? 48.
+Definition zero_dot_zero (l : list Z) : bool :=
+  match dropwhile is0 l with
+  | x :: r => (x =? 46) && forallb is0 r && (nonempty r || match l with y :: _ => is0 y | [] => false end)
+  | [] => false
+  end.
+Definition s_tobool (l : list Z) : bool :=
+  negb (negb (nonempty l) || list_eqb (map lower l) false_text || list_eqb l [48] || zero_dot_zero l).
+
+(* ---- the static char functions: ASCII, written as membership in explicit alphabets ---- *)
+Definition set_digit : list Z := [48; 49; 50; 51; 52; 53; 54; 55; 56; 57].
+Definition set_upper : list Z := [65; 66; 67; 68; 69; 70; 71; 72; 73; 74; 75; 76; 77; 78; 79; 80; 81; 82; 83; 84; 85; 86; 87; 88; 89; 90].
+Definition set_lower : list Z := [97; 98; 99; 100; 101; 102; 103; 104; 105; 106; 107; 108; 109; 110; 111; 112; 113; 114; 115; 116; 117; 118;
+                                  119; 120; 121; 122].
+Definition set_hexletter : list Z := [65; 66; 67; 68; 69; 70; 97; 98; 99; 100; 101; 102].
+Definition set_space : list Z := [9; 10; 11; 12; 13; 32].            (* \t \n \v \f \r and the blank *)
+Definition set_punct : list Z := [33; 34; 35; 36; 37; 38; 39; 40; 41; 42; 43; 44; 45; 46; 47; 58; 59; 60; 61; 62; 63; 64;
+                                  91; 92; 93; 94; 95; 96; 123; 124; 125; 126].
+Definition c_alpha (c : Z) : bool := memb c set_upper || memb c set_lower.
+Definition c_alnum (c : Z) : bool := c_alpha c || memb c set_digit.
+Definition s_char (q : cquery) (c : Z) : Z :=
+  match q with
+  | CLower => lower c
+  | CUpper => upper c
+  | CIsSpace => b2z (memb c set_space)
+  | CIsAlnum => b2z (c_alnum c)
+  | CIsAlpha => b2z (c_alpha c)
+  | CIsDigit => b2z (memb c set_digit)
+  | CIsLowerCase => b2z (memb c set_lower)
+  | CIsPrint => b2z (c_alnum c || memb c set_punct || (c =? 32))
+  | CIsPunct => b2z (memb c set_punct)
+  | CIsUpperCase => b2z (memb c set_upper)
+  | CIsHexDigit => b2z (memb c set_digit || memb c set_hexletter)
   end.
 
 (* ---- the reference state: values + immutable foreign buffers ---- *)
@@ -274,6 +341,15 @@ Definition pre (s : sstate) (o : op) : bool :=
       | QFindC c | QFindLastC c => is_byte c && cbytes (valof s v) && cbytes (valof s u)
       | _ => cbytes (valof s v) && cbytes (valof s u)    (* const char* arguments: C strings *)
       end
+  | OPlusEqS v u | OPlus v u => has s v && has s u         (* concatenation is total on byte strings *)
+  | OPlusEqC v c => has s v && is_byte c
+  | OPlusLit v l => has s v && bytes l
+  | OPlusAssign d v u => has s d && has s v && has s u
+  | OFromBool _ => true
+  | OFromCStr l => cbytes l                                (* a const char* argument: a C string *)
+  | OFromCStrN l n => bytes l && (n <=? length l)%nat
+  | OToBool v => has s v && cbytes (valof s v)             (* reads the C-string view *)
+  | OChar _ c => is_byte c
   end.
 
 Definition spec_exec (s : sstate) (o : op) : sstate * out :=
@@ -333,6 +409,16 @@ Definition spec_exec (s : sstate) (o : op) : sstate * out :=
   | OSplitSet v seps skip => (s, RList (set_of (s_split seps (valof s v) skip)))
   | OFromPrintf l => (pushval s l, RNone)
   | OStat q v u => (s, RInt (s_stat q (valof s v) (valof s u)))
+  | OPlusEqS v u => (setval s v (valof s v ++ valof s u), RNone)
+  | OPlusEqC v c => (setval s v (valof s v ++ [c]), RNone)
+  | OPlus v u => (pushval s (valof s v ++ valof s u), RNone)
+  | OPlusLit v l => (mksstate (svals s ++ [valof s v ++ l]) (sregs s ++ [l ++ [0]]), RNone)
+  | OPlusAssign d v u => (setval s d (valof s v ++ valof s u), RNone)
+  | OFromBool b => (mksstate (svals s ++ [bool_text b]) (sregs s ++ [bool_text b ++ [0]]), RNone)
+  | OFromCStr l => (pushval s l, RNone)
+  | OFromCStrN l n => (pushval s (firstn n l), RNone)
+  | OToBool v => (s, RInt (b2z (s_tobool (valof s v))))
+  | OChar q c => (s, RInt (s_char q c))
   end.
 
 Definition spec_step (s : sstate) (o : op) : option (sstate * out) :=
